@@ -19,6 +19,7 @@ registry! {
     h_graph::h_graph_n3_untraced,
     h_graph::h_graph_n3_s2,
     h_graph::h_graph_twin,
+    h_graph::h_buffer_n3,
     h_panic::h_panic_n2,
     h_panic::h_panic_n3,
     h_panic::h_panic_n3_hist,
@@ -45,12 +46,16 @@ registry! {
     #[cfg(feature = "weak-ptrs")]
     h_count::h_weak_kernel,
     h_count::h_count_twin,
+    h_tls::h_tls,
+    h_tls::h_tls_twin,
     #[cfg(feature = "cleaners")]
     h_clean::h_clean_n2,
     #[cfg(feature = "cleaners")]
     h_clean::h_clean_n2_a3,
     #[cfg(feature = "cleaners")]
     h_clean::h_clean_twin,
+    #[cfg(feature = "cleaners")]
+    h_clean::h_clean_panic,
     h_layout::h_layout_grid,
     h_layout::h_layout_zst,
     h_layout::h_forward_ints,
